@@ -612,8 +612,7 @@ func (r *Reconciler) applyRollback(ctx context.Context, transaction *configapi.T
 			// If the change is pending apply, abort the apply phase. This must be done only once the
 			// prior transaction phase has been applied to ensure aborts still occur sequentially
 			// within the transaction log.
-			if configuration.Applied.Ordinal == transaction.Status.Change.Ordinal-1 &&
-				configuration.Applied.Target != transaction.ID.Index {
+			if configuration.Applied.Ordinal == transaction.Status.Change.Ordinal-1 {
 				prevTransactionID := configapi.TransactionID{
 					Target: transaction.ID.Target,
 					Index:  configuration.Applied.Index,
@@ -668,7 +667,14 @@ func (r *Reconciler) applyRollback(ctx context.Context, transaction *configapi.T
 				}
 				return controller.Result{}, true, nil
 			}
-			return controller.Result{}, false, nil
+			// The change was applied and recorded in the configuration, but a failure occurred before the
+			// transaction status could be updated: complete the change apply so the rollback can proceed.
+			transaction.Status.Change.Apply.State = configapi.TransactionPhaseStatus_COMPLETE
+			transaction.Status.Change.Apply.End = now()
+			if err := r.updateTransactionStatus(ctx, transaction); err != nil {
+				return controller.Result{}, false, err
+			}
+			return controller.Result{}, true, nil
 		case configapi.TransactionPhaseStatus_ABORTED, configapi.TransactionPhaseStatus_FAILED:
 			// If the change apply has been marked aborted or failed, ensure the applied configuration
 			// status is updated. This is necessary in the event a failure occurs after aborting/failing
